@@ -326,3 +326,11 @@ def expansion_lines(O):
     if n == 0:
         O.inconclusive("vacuous")
     O.note("%d paths, %d shape pairs" % (len(paths), n))
+
+
+@obligation("C19/document-test-source", profiles=("dev",),
+            desc="dig::File::load_test / load_test_by_name parse exactly the stored source text of the selected test (string "
+                 "identity) - nothing is trimmed or re-assembled, so `line` counts from the first line of that text")
+def document_source(O):
+    from . import C16
+    C16.load_test(O)
